@@ -844,7 +844,9 @@ func runFreeze(kind string, style int) (msg string) {
 	fin.Completed = true
 	time.Sleep(8 * time.Millisecond)
 	c, _ := d.Decor(fin)
-	time.Sleep(8 * time.Millisecond)
+	// long enough for the next printed unit (a second; a minute for HH:MM would be
+	// too long, there the 8 ms above straddle the minute) to have gone by
+	time.Sleep(1100 * time.Millisecond)
 	e, _ := d.Decor(fin)
 	if a == b {
 		return "" // clock too coarse to tell; nothing observed
@@ -1025,17 +1027,33 @@ func runC20(job common.Job, em *emitter) {
 						doTime(c20Time{Style: st, D: int64(14 * time.Second), Via: "avgeta", Cur: 1e10, Tot: 1e10 + items})
 					}
 				}
+				// the freeze probes wait a good second each: side by side
+				type fz struct {
+					k   string
+					st  int
+					msg string
+				}
+				var fzs []*fz
 				for _, k := range []string{"elapsed", "avgspeed"} {
 					for st := 0; st < 4; st++ {
-						acc.res.Evals++
-						acc.res.NonTrivial++
-						acc.sigs.add("freeze", k, st)
-						if m := runFreeze(k, st); m != "" {
-							acc.viol(m, "freeze:"+k, map[string]interface{}{"kind": k, "style": st})
-						}
+						fzs = append(fzs, &fz{k: k, st: st})
 						if k != "elapsed" {
 							break
 						}
+					}
+				}
+				var fwg sync.WaitGroup
+				for _, f := range fzs {
+					fwg.Add(1)
+					go func(f *fz) { defer fwg.Done(); f.msg = runFreeze(f.k, f.st) }(f)
+				}
+				fwg.Wait()
+				for _, f := range fzs {
+					acc.res.Evals++
+					acc.res.NonTrivial++
+					acc.sigs.add("freeze", f.k, f.st)
+					if f.msg != "" {
+						acc.viol(f.msg, "freeze:"+f.k, map[string]interface{}{"kind": f.k, "style": f.st})
 					}
 				}
 			} else {
